@@ -197,6 +197,8 @@ def items(tier, seed):
     yield from spaces.mk(['flat23', 'nest22'], force='mods',
                          fargs={'alts': [[('top', 'verbose', True)],
                                          [('top', 'verbose', True),
+                                          ('top', 'watch', True)],
+                                         [('top', 'verbose', True),
                                           ('n', 'verbose', True)]]},
                          job_open={'dur': [2]}, top_open={'window': [1]},
                          nest_open={}, k=1, maxF=2, raise_out='raise_empty')
